@@ -2,6 +2,16 @@
 """Adds the 'needs' text to seeded/*/meta.json (from the table below) and regenerates seeded/README.md."""
 import json, os, glob
 NEEDS = {
+ 'C02d-length-guard-hoisted-out-of-the-fuzz-loop': '--fuzz >= 1 and a file with fewer lines than the whole old side of a hunk that fits once its ends are trimmed',
+ 'C05d-refused-rename-puts-content-into-the-wrong-file': 'a git rename onto an existing non-empty file (refused) whose source an earlier patch of the same push touched: the source is deleted',
+ 'C06d-erring-workers-state-dropped': 'a failing patch on one worker, a load error in a later patch on another worker that has applied earlier patches, and the second worker getting there first',
+ 'C08d-onfail-decided-by-rejects': '--threads 1, --backup onfail, the push stopping at a patch that fails without any rejected hunk (refused rename)',
+ 'C09d-rename-record-taken-after-the-move': 'a failing git rename onto a name that an earlier patch of the same push deleted or renamed away (or, for backups, onto an existing empty file)',
+ 'C13d-reject-header-of-insertion-from-the-new-side': 'a rejected context-free pure insertion whose two line numbers are more than one apart (earlier hunks changed the line count)',
+ 'C14d-mmap-size-from-lstat': '--mmap and a symbolic link on a path that is loaded: the patched file or the patch file',
+ 'C16d-strip-skipped-for-p0': 'a -p0 entry spelling a file ./name and another entry spelling it plainly, in one push',
+ 'C17d-hunk-header-without-plus-is-garbage': 'a hunk header whose first range is not followed by " +": taken for garbage, the hunk is dropped quietly',
+ 'C19d-last-component-not-checked-for-links': 'a symbolic link in the tree that is itself the target of a patch and points out of the tree',
  'C01c-old-name-existed-arm': '.orig-style differing names whose old name was on disk at the start and was removed by an earlier patch of the same push (reported by C16 and C09; C01 pushes single patches)',
  'C04c-deleted-flag-restored-before-undo': 'an existing zero-length file, a /dev/null creation onto it and a sibling entry of the same patch that fails: rolling back removes the empty file',
  'C08c-mode-not-restored-without-mode-line': 'a file with a non-default mode deleted by one patch and re-created by a later one in the same invocation, with backups: the backup of the deleting patch gets the default mode',
